@@ -139,3 +139,12 @@ def shard(mon, tier, rng, shard_no, nshards):
         if K > m:
             mon.count("Kgtm_cones")
         check_cone(mon, f"random{K}x{m}", gen.make_order("W", W=W), rng, f"random{m}d")
+
+
+def replay(mon, rec):
+    c = rec["case"]
+    W = np.array(c["W"], float)
+    order = gen.make_order("W", W=W)
+    print("alpha (code):", np.asarray(order.ordering_cone.alpha).reshape(-1), " oracle:", G.cone_alpha(W)[0])
+    print("u*, d1 (code):", real_ustar(order, 0), " oracle:", G.cone_ustar(W)[:2])
+    check_cone(mon, c.get("cone", "replay"), order, np.random.default_rng(0), "replay")
